@@ -37,13 +37,17 @@ Marks1 == {Add(c) : c \in Inner} \cup {Del(c) : c \in Inner} \cup {Hi(c) : c \in
 Inner2 == {<<m>> : m \in Marks1} \cup {<<Txt("a"), m>> : m \in Marks1} \cup {<<m, Txt("z")>> : m \in Marks1}
 Marks2 == {Add(c) : c \in Inner2} \cup {Del(c) : c \in Inner2} \cup {Hi(c) : c \in Inner2}
 Strays == {Stray(m) : m \in {"~>", "{++", "++}", "{>>", "<<}", "==}", "{--", "~~}"}}
+RECURSIVE RepS(_, _)
+RepS(m, n) == IF n = 0 THEN "" ELSE m \o RepS(m, n - 1)
+\* a long run of one unmatched opening marker (the pairing engine changes strategy when more than 1000 openers are pending): o records the marker
+StrayRun(m, n) == [t |-> "stray", s |-> RepS(m \o " ", n), c |-> <<>>, o |-> m, n |-> ""]
 Family(m) == CASE m \in {"{++", "++}"} -> "add" [] m \in {"{--", "--}"} -> "del" [] m \in {"{>>", "<<}"} -> "com" [] m \in {"==}", "{=="} -> "hi" [] OTHER -> "sub"
 RECURSIVE Kinds(_)
 Kinds(sc) == IF sc = <<>> THEN {} ELSE {Head(sc).t} \cup Kinds(Head(sc).c) \cup Kinds(Tail(sc))
 \* a stray marker must really be unmatched: only one per script, and no mark of its family anywhere in the script
 StrayOK(sc) == LET st == {i \in 1 .. Len(sc) : sc[i].t = "stray"} IN
                /\ Cardinality(st) <= 1
-               /\ \A i \in st : Family(sc[i].s) \notin Kinds(sc)
+               /\ \A i \in st : Family(IF sc[i].o # "" THEN sc[i].o ELSE sc[i].s) \notin Kinds(sc)
 \* two text items side by side are one text; an empty script is nothing
 Shape(sc) == /\ sc # <<>> /\ \A i \in 1 .. (Len(sc) - 1) : ~(sc[i].t = "txt" /\ sc[i + 1].t = "txt")
 \* text that ends in a partial marker (top level only: inside a mark it would be ambiguous with the closing marker)
@@ -53,7 +57,11 @@ RECURSIVE RandSeq(_, _)
 RandSeq(S, n) == IF n = 0 THEN <<>> ELSE <<RandomElement(S)>> \o RandSeq(S, n - 1)
 RandScript(dummy) == RandSeq(Top \cup Marks2, RandomElement(1 .. 5))
 
+DeepScripts == {<<StrayRun("{==", n), Del(<<Txt("gone")>>), Add(<<Txt("kept")>>), Sub("old", "new"), Com("note"), Txt(" end")>> : n \in {3, 999, 1000, 1001, 1500}}
+               \cup {<<Txt("a "), StrayRun("{++", n), Sub("old", "new"), Txt(" "), Hi(<<Txt("hi"), Del(<<Txt("x")>>)>>)>> : n \in {998, 1000, 1002}}
+               \cup {<<StrayRun("{>>", n), Add(<<Txt("b c")>>)>> : n \in {1000, 2500}}
 VARIABLE sc
+InitDeep == sc \in DeepScripts
 Init == IF Sim THEN sc = RandScript(0) ELSE sc \in {s \in SeqUpTo(Top, 2) \cup {<<m>> : m \in Marks2} : Shape(s) /\ StrayOK(s)}
 Next == Sim /\ sc' = RandScript(sc)
 \* laws of the specification itself
